@@ -16,7 +16,7 @@
 
 namespace verif
 {
-    struct ublock { std::size_t off, size, align; bool live; };
+    struct ublock { std::size_t off, size, align; bool live; int tag = 0; };
 
     struct upstream_state
     {
@@ -66,7 +66,7 @@ namespace verif
             void* r = base + high_bump; high_bump += size; return r;
         }
 
-        void* allocate(std::size_t size, std::size_t align)
+        void* allocate(std::size_t size, std::size_t align, int tag = 0)
         {
             init();
             ++calls;
@@ -82,7 +82,7 @@ namespace verif
             {
                 down = (down - size - gap) & ~(al - 1);
                 std::size_t o = down;
-                blocks.push_back({o, size, align, true});
+                blocks.push_back({o, size, align, true, tag});
                 ++total_alloc;
                 std::snprintf(buf, sizeof buf, " U+ %zu %zu %zu", size, align, o); oplog += buf;
                 return base + o;
@@ -91,18 +91,18 @@ namespace verif
             if (skew && align <= skew) bump += skew;
             if (bump + size > region - (2 << 20)) { std::fprintf(stderr, "upstream region exhausted\n"); std::exit(3); }
             std::size_t o = bump; bump += size;
-            blocks.push_back({o, size, align, true});
+            blocks.push_back({o, size, align, true, tag});
             ++total_alloc;
             std::snprintf(buf, sizeof buf, " U+ %zu %zu %zu", size, align, o); oplog += buf;
             return base + o;
         }
-        void deallocate(void* p, std::size_t size, std::size_t align)
+        void deallocate(void* p, std::size_t size, std::size_t align, int tag = 0)
         {
             char buf[96];
             std::size_t o = off(p);
             bool found = false;
             for (auto& b : blocks)
-                if (b.live && b.off == o) { found = true; if (b.size != size || b.align != align) { ++errors; oplog += " U!mismatch"; } b.live = false; break; }
+                if (b.live && b.off == o) { found = true; if (b.size != size || b.align != align) { ++errors; oplog += " U!mismatch"; } if (b.tag != tag) { ++errors; oplog += " U!foreign"; } b.live = false; break; }
             if (!found) { ++errors; oplog += " U!unknown"; }
             ++total_dealloc;
             std::snprintf(buf, sizeof buf, " U- %zu %zu %zu", size, align, o); oplog += buf;
@@ -130,10 +130,10 @@ namespace verif
     {
         using is_stateful = std::true_type;
         int tag = 0;
-        void* allocate_node(std::size_t size, std::size_t alignment) { return up().allocate(size, alignment); }
-        void  deallocate_node(void* p, std::size_t size, std::size_t alignment) noexcept { up().deallocate(p, size, alignment); }
-        void* allocate_array(std::size_t count, std::size_t size, std::size_t alignment) { return up().allocate(count * size, alignment); }
-        void  deallocate_array(void* p, std::size_t count, std::size_t size, std::size_t alignment) noexcept { up().deallocate(p, count * size, alignment); }
+        void* allocate_node(std::size_t size, std::size_t alignment) { return up().allocate(size, alignment, tag); }
+        void  deallocate_node(void* p, std::size_t size, std::size_t alignment) noexcept { up().deallocate(p, size, alignment, tag); }
+        void* allocate_array(std::size_t count, std::size_t size, std::size_t alignment) { return up().allocate(count * size, alignment, tag); }
+        void  deallocate_array(void* p, std::size_t count, std::size_t size, std::size_t alignment) noexcept { up().deallocate(p, count * size, alignment, tag); }
         std::size_t max_node_size() const { return std::size_t(-1); }
         std::size_t max_array_size() const { return std::size_t(-1); }
         std::size_t max_alignment() const { return std::size_t(1) << 31; }
